@@ -91,7 +91,7 @@ def main():
     checks = checks or [prop]
     patch = os.path.abspath(os.path.join(src, "patch.diff"))
     rec = {"seed": sid, "property": prop, "summary": meta.get("summary"), "breaks": meta.get("breaks"), "needs": meta.get("needs"),
-           "ran": [], "verdicts": {}}
+           "demo_cmd": meta.get("demo_cmd"), "ran": [], "verdicts": {}}
     wt = "/tmp/seedeval-%s" % sid
     sh("git -C %s worktree remove --force %s" % (REPO, wt))
     rc, out = sh("git -C %s worktree add -q --detach %s HEAD" % (REPO, wt))
